@@ -10,7 +10,7 @@ import codecs
 import itertools
 import re
 
-from ..monitors.reach import Reach
+from ..monitors.reach import Reach, opt
 
 ID = "C17"
 RULE = (
@@ -286,10 +286,10 @@ def run(shard, rec, rng):
     from werkzeug import datastructures as DS
     from werkzeug import http
 
-    reach = Reach(rec, {"parse_accept_header": http.parse_accept_header, "Accept.best_match": DS.Accept.best_match, "Accept._best_single_match": DS.Accept._best_single_match,
-                        "Accept.quality": DS.Accept.quality, "Accept.__init__": DS.Accept.__init__, "MIMEAccept._value_matches": DS.MIMEAccept._value_matches,
-                        "LanguageAccept.best_match": DS.LanguageAccept.best_match, "LanguageAccept._value_matches": DS.LanguageAccept._value_matches,
-                        "CharsetAccept._value_matches": DS.CharsetAccept._value_matches})
+    reach = Reach(rec, {"parse_accept_header": opt(lambda: http.parse_accept_header), "Accept.best_match": opt(lambda: DS.Accept.best_match), "Accept._best_single_match": opt(lambda: DS.Accept._best_single_match),
+                        "Accept.quality": opt(lambda: DS.Accept.quality), "Accept.__init__": opt(lambda: DS.Accept.__init__), "MIMEAccept._value_matches": opt(lambda: DS.MIMEAccept._value_matches),
+                        "LanguageAccept.best_match": opt(lambda: DS.LanguageAccept.best_match), "LanguageAccept._value_matches": opt(lambda: DS.LanguageAccept._value_matches),
+                        "CharsetAccept._value_matches": opt(lambda: DS.CharsetAccept._value_matches)})
     cfg = TIERS[shard["_tier"]]
     CH = ["utf-8", "utf8", "latin1", "iso-8859-1", "*", "ascii", "us-ascii", "x-unknown"]
     ENC = ["gzip", "br", "identity", "*", "deflate", "GZIP"]
